@@ -342,4 +342,22 @@ pub fn run(r: &mut Runner) {
             }
         });
     }
+    {
+        // relational pairs: (x, x), (x, -x), (x, 2x), (x, x/2), (x, neighbours of x), (x, hi(x)), (x, +-1) in both orders
+        let xs: Vec<[f64; 2]> = crate::fx::grid(&[-400, -100, -1, 0, 1, 52, 53, 54, 100, 399], quick, 191);
+        let ps = crate::fx::relational_pairs(&xs);
+        let np = ps.len();
+        r.notes.push(format!("relational pairs for %, div_euclid, rem_euclid: {} pairs from {} operands (x with x, -x, 2x, x/2, its double-double neighbours, its high word, +-1; both argument orders)", np, xs.len()));
+        r.par("relational pairs: %, div_euclid, rem_euclid", np.div_ceil(64), 2 * np as u64, |c, l| {
+            for i in (c * 64)..((c + 1) * 64).min(np) {
+                let (a, b) = ps[i];
+                for call in 0..7usize {
+                    let v = judge(call, a, b, Some(l));
+                    rec.record(l, (9u64 << 55) + (i * 16 + call) as u64, v);
+                    let v = judge(call, b, a, Some(l));
+                    rec.record(l, (9u64 << 55) + (i * 16 + 8 + call) as u64, v);
+                }
+            }
+        });
+    }
 }
